@@ -22,6 +22,8 @@ type c03Req struct {
 	Route    string `json:"route"`
 	Caller   string `json:"caller"`              // userA | userB | admin | root
 	SrcOther bool   `json:"src_other,omitempty"` // copy source in the other bucket
+	// SrcVersion: the copy source names the current version of the source object (?versionId=...)
+	SrcVersion bool `json:"src_version,omitempty"`
 	GW       int    `json:"gw"`
 }
 
@@ -138,12 +140,16 @@ func (c03) Gen(seed uint64, run int, tier string) *core.Case {
 		if r.IntN(2) == 0 {
 			pol.Statements[0].Actions = []string{"s3:*"}
 			pol.Statements[0].Resources = []string{"arn:aws:s3:::alpha", "arn:aws:s3:::alpha/*"}
-			pol.Statements = append(pol.Statements, model.Statement{Effect: "Deny", Principals: []string{who}, Actions: []string{"s3:GetObject"}, Resources: []string{"arn:aws:s3:::alpha/obj1"}})
+			deny := []string{"s3:GetObject"}
+			if r.IntN(2) == 0 {
+				deny = []string{"s3:Get*"} // every way of reading that key, also by version id
+			}
+			pol.Statements = append(pol.Statements, model.Statement{Effect: "Deny", Principals: []string{who}, Actions: deny, Resources: []string{"arn:aws:s3:::alpha/obj1"}})
 		}
 		p.Policy = pol
 		caller := map[string]string{uA: "userA", uB: "userB"}[who]
 		for _, id := range []string{"CopyObject", "UploadPartCopy"} {
-			p.Reqs = append(p.Reqs, c03Req{Route: id, Caller: caller, GW: r.IntN(cfg.Instances)})
+			p.Reqs = append(p.Reqs, c03Req{Route: id, Caller: caller, GW: r.IntN(cfg.Instances), SrcVersion: r.IntN(2) == 0})
 		}
 	}
 	for i := 0; i < n; i++ {
@@ -154,6 +160,7 @@ func (c03) Gen(seed uint64, run int, tier string) *core.Case {
 		rq := c03Req{Route: rt.ID, Caller: []string{"userA", "userB", "userA", "userB", "admin"}[r.IntN(5)], GW: r.IntN(cfg.Instances)}
 		if strings.Contains(rt.ID, "Copy") {
 			rq.SrcOther = r.IntN(2) == 0
+			rq.SrcVersion = !rq.SrcOther && r.IntN(3) == 0
 		}
 		p.Reqs = append(p.Reqs, rq)
 	}
@@ -370,6 +377,13 @@ func (c03) Exec(c *core.Case) (out *core.Outcome) {
 				}
 			}
 		}
+		if rqd.SrcVersion && !rqd.SrcOther && fx.ObjVersion != "" {
+			for hi := range rq.Headers {
+				if strings.EqualFold(rq.Headers[hi].K, "X-Amz-Copy-Source") {
+					rq.Headers[hi].V += "?versionId=" + fx.ObjVersion
+				}
+			}
+		}
 		// target bucket / key of this request
 		segs := strings.SplitN(strings.TrimPrefix(rq.Path, "/"), "/", 2)
 		bucket := segs[0]
@@ -391,7 +405,13 @@ func (c03) Exec(c *core.Case) (out *core.Outcome) {
 			if rqd.SrcOther {
 				sb, sk = fx.Beta, "bobj"
 			}
-			needs = append(needs, need{sb, sb + "/" + sk, "s3:GetObject", "READ", "copy-source"})
+			act := "s3:GetObject"
+			if rqd.SrcVersion && !rqd.SrcOther && fx.ObjVersion != "" {
+				// a source named by version id is read as a version: judged only when the model refuses both
+				// ways of reading the key (which action a gateway asks for here is its choice)
+				act = "s3:GetObject+s3:GetObjectVersion"
+			}
+			needs = append(needs, need{sb, sb + "/" + sk, act, "READ", "copy-source"})
 		}
 		cl := e.User(acct.Access, acct.Secret)
 		cl.GW = rqd.GW
@@ -408,7 +428,15 @@ func (c03) Exec(c *core.Case) (out *core.Outcome) {
 		decidedBy := ""
 		if rqd.Caller != "admin" {
 			for _, nd := range needs {
-				ok, by := c03Decide(pols[nd.bucket], acls[nd.bucket], acct.Access, nd.action, nd.resource, nd.perm)
+				ok, by := c03Decide(pols[nd.bucket], acls[nd.bucket], acct.Access, strings.Split(nd.action, "+")[0], nd.resource, nd.perm)
+				if !ok && strings.Contains(nd.action, "+") {
+					// refused only if every alternative action is refused
+					for _, alt := range strings.Split(nd.action, "+")[1:] {
+						if ok2, _ := c03Decide(pols[nd.bucket], acls[nd.bucket], acct.Access, alt, nd.resource, nd.perm); ok2 {
+							ok = true
+						}
+					}
+				}
 				if !ok {
 					denied = true
 					decidedBy = by
